@@ -271,12 +271,38 @@ theorem tile_then_read_full {α} [BEq α] [LawfulBEq α] (z : α) (Ms : List (In
   rw [e]
   exact tileThenRead_sparse z Ms R C tr tc hr hc hR hC hnd c M hM false rs re cs ce ai r0 r1 c0 c1 hstd hr01 hc01
 
-/-- TILED_FULL with `omit_empty_frames` is refused by the constructor. -/
+/-- TILED_FULL with `omit_empty_frames` is refused by the constructor when the mask is not entirely empty … -/
 theorem tiled_full_omit_refused {α} [BEq α] (z : α) (Ms : List (Int × Img α)) (R C tr tc c : Int)
-    (rs re cs ce : Option Int) (ai : Bool) :
-    tileThenRead z Ms R C tr tc true true c rs re cs ce ai = .error .value := by
+    (rs re cs ce : Option Int) (ai : Bool) (offs : List (Int × Int)) (hoffs : tileOffsets tr tc R C = .ok offs)
+    (hne : allTilesEmpty z Ms R C tr tc offs = .ok false) :
+    ∃ e, tileThenRead z Ms R C tr tc true true c rs re cs ce ai = .error e := by
   unfold tileThenRead
-  rfl
+  rw [hoffs]
+  simp only
+  cases keepMask z Ms R C tr tc offs true with
+  | error e => exact ⟨e, rfl⟩
+  | ok keep =>
+    simp only [Bool.and_self, if_true, hne]
+    exact ⟨_, rfl⟩
+
+/-- … and when it is entirely empty, `omit_empty_frames` is simply switched off: the result is that of
+`omit_empty_frames = False` (all frames stored, all zero). -/
+theorem tiled_full_omit_all_empty {α} [BEq α] (z : α) (Ms : List (Int × Img α)) (R C tr tc c : Int)
+    (rs re cs ce : Option Int) (ai : Bool) (offs : List (Int × Int)) (hoffs : tileOffsets tr tc R C = .ok offs)
+    (hae : allTilesEmpty z Ms R C tr tc offs = .ok true) :
+    tileThenRead z Ms R C tr tc true true c rs re cs ce ai = tileThenRead z Ms R C tr tc true false c rs re cs ce ai := by
+  have hk : keepMask z Ms R C tr tc offs true = keepMask z Ms R C tr tc offs false := by
+    unfold allTilesEmpty at hae
+    unfold keepMask
+    cases hne : Ms.mapM (fun m => offs.mapM (tileNonEmpty z R C tr tc m)) with
+    | error e => rfl
+    | ok ne =>
+      rw [hne] at hae
+      simp only [Except.ok.injEq] at hae
+      simp only [Bool.not_true, Bool.false_eq_true, if_false, hae, if_true, Bool.not_false]
+  unfold tileThenRead
+  rw [hoffs]
+  simp only [hk, Bool.and_self, if_true, hae, Bool.not_true, Bool.and_false, Bool.false_eq_true, if_false]
 
 /-- The tile `get_tile_array` cuts at a grid position: the matrix under the tile, zeros in the padding of edge tiles. -/
 theorem tile_array_content {α} (z : α) (M : Img α) (R C ro co tr tc : Int) (hr : 1 ≤ tr) (hc : 1 ≤ tc)
